@@ -155,9 +155,10 @@ def enum_from_repo(rel, cname):
     return e
 
 
-def bounded(name, props, note=""):
+def bounded(name, props, note="", shards=1):
+    """shards: a random (not exhaustive) bounded check is run that many times in parallel with different seeds in the thorough tier"""
     def deco(fn):
-        BOUNDED[name] = dict(props=list(props), fn=fn, note=note, name=name)
+        BOUNDED[name] = dict(props=list(props), fn=fn, note=note, name=name, shards=shards)
         return fn
 
     return deco
